@@ -63,6 +63,9 @@ def cases(tier, seed):
     # one-sphere clusters whose sphere is larger than the expansion order compiled into the multi-sphere code (32) can carry
     for i, xx in enumerate([30.0, 40.0, 60.0] if tier == "quick" else [26.0, 30.0, 35.0, 40.0, 50.0, 60.0, 80.0, 100.0]):
         out.append({"id": "ms1-large-%d" % i, "kind": "ms1", "m": [1.2, 0.0], "x": xx, "nmed": 1.0, "wl": 0.6, "pol_angle": 0.4, "cost": 60, "timeout": 1500})
+    # small clusters solved by the multi-sphere theory: the same relations between its two public entry points (F134)
+    for i in range(6 if tier == "quick" else 80):
+        out.append({"id": "cluster-%d" % i, "kind": "cluster", "nsph": 2 + i % 2, "seed": [seed, "cluster", i], "cost": 60, "timeout": 1500})
     # layered spheres with a strongly absorbing (metallic) shell, up to size parameters of several hundred
     for i, kR in enumerate([20.0, 100.0, 190.0, 200.0, 261.0, 400.0]):
         out.append({"id": "lay-metal-%d" % i, "kind": "metal_shell", "kR": kR, "shell": [0.16, 4.9], "core": 1.45, "frac": [0.9, 0.8, 0.5][i % 3], "cost": 3})
@@ -109,6 +112,42 @@ def _relations(s, nmed, wl, pol, theory, xmax):
     resid["cscat_integral"] = fnum(abs(csca_q - csca) / csca)
     resid["g_integral"] = fnum(abs(g_q - g))
     return cs, resid
+
+
+def _run_cluster(case):
+    """a cluster of two or three spheres in general position, tight solver settings: extinction from the forward amplitude, scattering and
+    asymmetry from the solid-angle integral of |S e_inc|^2 with the incident polarization resolved parallel / perpendicular to each
+    scattering plane (E_par = px cos(phi) + py sin(phi), E_perp = px sin(phi) - py cos(phi)), absorption of real-index spheres zero"""
+    import holopy as hp
+    from holopy.scattering import Multisphere, calc_cross_sections, calc_scat_matrix
+    rng = rng_for(*case["seed"])
+    o = scat.gen_optics(rng)
+    cl = scat.gen_cluster(rng, o, case["nsph"], xmax=3.0, xmin=0.8, gap=(0.05, 0.6), absorbing=False)
+    s = scat.build_scatterer(cl)
+    th = Multisphere(qeps1=1e-12, qeps2=1e-14, eps=1e-12)
+    nmed, wl, pol = o["medium_index"], o["illum_wavelen"], np.asarray(o["illum_polarization"], dtype=float)
+    pol = pol / np.linalg.norm(pol)
+    k = 2 * math.pi * nmed / wl
+    cs = calc_cross_sections(s, nmed, wl, tuple(pol), theory=th).values
+    csca, cabs, cext, g = [float(v) for v in cs]
+    S0 = calc_scat_matrix(hp.detector_points(theta=np.array([0.0]), phi=np.array([0.0])), s, nmed, wl, theory=th).values[0]
+    e0 = np.array([pol[0], -pol[1]])                 # at phi = 0: parallel = x, perpendicular = -y
+    resid = {"optical_theorem": fnum(abs(4 * math.pi / k ** 2 * float((e0 @ S0 @ e0).real) - cext) / cext)}
+    nth, nph = 40, 48
+    mu, w = np.polynomial.legendre.leggauss(nth)
+    ths = np.arccos(mu)
+    phs = 2 * math.pi * np.arange(nph) / nph
+    T, P = np.meshgrid(ths, phs, indexing="ij")
+    S = calc_scat_matrix(hp.detector_points(theta=T.ravel(), phi=P.ravel()), s, nmed, wl, theory=th).values.reshape(nth, nph, 2, 2)
+    epar = pol[0] * np.cos(P) + pol[1] * np.sin(P)
+    eper = pol[0] * np.sin(P) - pol[1] * np.cos(P)
+    inten = np.abs(S[..., 0, 0] * epar + S[..., 0, 1] * eper) ** 2 + np.abs(S[..., 1, 0] * epar + S[..., 1, 1] * eper) ** 2
+    csca_q = float((w[:, None] * inten).sum()) * (2 * math.pi / nph) / k ** 2
+    g_q = float((w[:, None] * inten * mu[:, None]).sum()) * (2 * math.pi / nph) / k ** 2 / csca_q
+    resid["cscat_integral"] = fnum(abs(csca_q - csca) / csca)
+    resid["g_integral"] = fnum(abs(g_q - g))
+    flags = {"real_index_no_absorption": bool(abs(cabs) <= 1e-6 * cext)}
+    return {"resid": resid, "flags": flags, "cond": 0.0, "x": 3.0, "cext": cext}
 
 
 def run_case(case):
@@ -212,6 +251,9 @@ def judge(case, obs):
     for k, v in obs["resid"].items():
         base = k.split("@")[0]
         t = TOL[base]
+        if case["kind"] == "cluster":
+            # iterative solver with tight settings: amplitudes good to ~1e-7 (translation-coefficient recurrences), cross sections from them
+            t = {"optical_theorem": 1e-5, "cscat_integral": 1e-5, "g_integral": 1e-5}[base]
         if base.startswith("ref_") and obs["cond"] > t / 10:
             continue
         if not v <= t:
